@@ -49,6 +49,7 @@ class RecordingPeer(object):
             self.sock.bind(("127.0.0.1", 0))
             self.addr = self.sock.getsockname()
         self.sock.listen(16)
+        self.sock.settimeout(None)           # (a harness may have set a default socket time-out: the listener itself never times out)
         self.stop = False
         self.thread = threading.Thread(target=self._serve, daemon=True)
         self.thread.start()
@@ -174,6 +175,7 @@ class ScriptedPeer(object):
             s.bind(("127.0.0.1", self.port or 0))
             self.port = s.getsockname()[1]
         s.listen(16)
+        s.settimeout(None)                   # the listener itself never times out, whatever the process-wide default
         self.sock = s
         threading.Thread(target=self._serve, args=(s,), daemon=True).start()
 
